@@ -28,6 +28,16 @@ class _Canon(ast.NodeTransformer):
         nm = self.ROLE.get(nm, nm)
         return ast.copy_location(ast.Name(id=nm, ctx=node.ctx), node)
 
+    def visit_For(self, node):
+        self.generic_visit(node)
+        # iterating a materialised copy of a sequence visits the same items
+        it = node.iter
+        while isinstance(it, ast.Call) and isinstance(it.func, ast.Name) and it.func.id in ('list', 'tuple') and \
+                len(it.args) == 1 and not it.keywords:
+            it = it.args[0]
+        node.iter = it
+        return node
+
 
 def _full(node):
     """Whole source of a node (compound statements with their bodies), one line."""
@@ -165,9 +175,13 @@ def run(ctx):
     rep.assumptions = ['the merge joins are the reference (C06)', 'dict preserves insertion order per key list']
     rep.trusted = ['normal-form comparison (name canonicalisation by convention: leading underscores, lrow/rrow/outrow roles)']
     fns = [ctx.project.need_fn(fq) for fq in JOIN_ITERS]
-    r71(ctx, rep, fns)
-    r72(ctx, rep)
-    r73(ctx, rep)
+    ctx.attempt(r71, ctx, rep, fns)
+    ctx.attempt(r72, ctx, rep)
+    ctx.attempt(r73, ctx, rep)
+    from .common import check_side_mismatches as _sides
+    rep.rule('R7.9', 'a key / value getter built from the header of one table is applied to rows of that table only')
+    ctx.floor('two_table_functions', ctx.attempt(_sides, ctx, rep, 'R7.9', ctx.functions(
+        ['petl.transform.hashjoins', 'petl.transform.joins'])) or 0, 6)
     from .plumbing import check_plumbing
     rep.rule('R7.5', 'view -> iterator plumbing of the hash joins: self.X reaches the parameter named X')
     ctx.floor('plumbing_sites', check_plumbing(ctx, rep, 'R7.5', ['petl.transform.hashjoins']), 25)
